@@ -117,6 +117,7 @@ type Options struct {
 	Solver    string
 	MaxPaths  int
 	MaxViol   int
+	StopViol  int // stop exploring a harness once this many violating paths were seen (0 = never)
 	Verbose   bool
 	Deadline  time.Time
 	CrossFrac int
@@ -818,6 +819,17 @@ func runHarness(prog *ssa.Program, h *ssa.Function, opts *Options) *Result {
 				if (opts.MaxPaths > 0 && res.Paths >= opts.MaxPaths) || (!opts.Deadline.IsZero() && time.Now().After(opts.Deadline)) {
 					res.Truncated = true
 					stop = true
+				}
+				if opts.StopViol > 0 {
+					nv := 0
+					for _, n := range res.ViolCount {
+						nv += n
+					}
+					if nv >= opts.StopViol {
+						// the verdict is settled by the violations already recorded
+						res.Truncated = true
+						stop = true
+					}
 				}
 				res.mu.Unlock()
 				if stop {
